@@ -34,15 +34,17 @@ def main():
     # 1. confirm
     rc, o = sh("git diff -- src > patch.diff; git diff --stat -- src | tail -1", cwd=wt)
     meta["diffstat"] = o.strip()
-    rc, o = sh("cargo test --offline --no-fail-fast --lib --test capacity-management --test many-accesses --test memory-leak --doc 2>&1 | grep -E '^test result|FAILED|panicked' ", cwd=wt)
+    rc1, o1 = sh("cargo test --offline --no-fail-fast --lib --test capacity-management --test many-accesses --test memory-leak 2>&1", cwd=wt)
+    rc2, o2 = sh("cargo test --offline --no-fail-fast --doc 2>&1", cwd=wt)
+    o = o1 + o2
     results = re.findall(r"test result: (\w+)\. (\d+) passed; (\d+) failed", o)
     meta["suite_with_change"] = {"passed": sum(int(r[1]) for r in results), "failed": sum(int(r[2]) for r in results)}
-    rc_with, o_with = sh("cargo test --offline --test seed_demo 2>&1 | tail -25", cwd=wt)
+    rc_with, o_with = sh("cargo test --offline --test seed_demo 2>&1", cwd=wt)
     meta["demo_with_change"] = "fails" if rc_with != 0 else "PASSES (unexpected)"
     meta["demo_output_with_change"] = o_with[-1500:]
-    sh("git stash push -- src", cwd=wt)
-    rc_without, o_without = sh("cargo test --offline --test seed_demo 2>&1 | tail -8", cwd=wt)
-    sh("git stash pop", cwd=wt)
+    sh("git apply -R patch.diff", cwd=wt)
+    rc_without, o_without = sh("cargo test --offline --test seed_demo 2>&1", cwd=wt)
+    sh("git apply patch.diff", cwd=wt)
     meta["demo_without_change"] = "passes" if rc_without == 0 else "FAILS (unexpected)"
     confirmed = meta["suite_with_change"]["failed"] == 0 and meta["suite_with_change"]["passed"] >= 134 and rc_with != 0 and rc_without == 0
     meta["confirmed"] = confirmed
